@@ -934,6 +934,14 @@ func (e *CEnv) call(ex *CExpr) Value {
 		// utf8enc(r): the octets bytes.Buffer.WriteRune / string(rune) produce for r
 		need(1)
 		return App("utf8enc", SBytes, intArg(0))
+	case "nofault":
+		// nofault(c): the blocking reads on connection c fail only when the stream ends early (no transport error)
+		need(1)
+		iv, ok := ev(0).(*IfaceVal)
+		if !ok || iv.Sym == nil {
+			cfail("nofault expects an abstract connection")
+		}
+		return App("conn.nofault", SBool, iv.Sym)
 	case "runes":
 		// runes(s): the array of runes that []rune(s) yields (its length is runecount(s))
 		need(1)
@@ -1244,11 +1252,19 @@ func (x *Exec) isFresh(st, old *State, v Value) *Term {
 	case *SliceVal:
 		return objFresh(s.Reg)
 	case *MapVal:
+		// a map result is owned if the map object itself was made by this call (or is nil) and so were its values
 		mc := x.mapC(st, s.Obj)
-		if mc.ValFresh == nil {
-			return TTrue
+		own := objFresh(s.Obj)
+		if x.isGlobalObj(s.Obj) {
+			own = TFalse
 		}
-		return mc.ValFresh
+		if mc.Nil != nil {
+			own = Or(mc.Nil, own)
+		}
+		if mc.ValFresh == nil {
+			return own
+		}
+		return And(own, mc.ValFresh)
 	case *PtrVal:
 		if s.Obj == nil {
 			return TFalse
